@@ -37,6 +37,7 @@ def run(ctx):
     check_unmask(ctx, prog, [send, recv])
     check_handshake(ctx, prog)
     check_clients(ctx, prog)
+    check_zero_read(ctx, prog)
     import C16
     C16.check_partial(ctx, prog, rule='C11.partial', files=False)
     return __doc__.split('\n\n', 1)[1]
@@ -553,3 +554,65 @@ def check_clients(ctx, prog):
                         ok = True
             ctx.check(ok, 'R-LOCK', f['pq'], '%s:_clients modified under _mutex' % f['n'], fwhere(f, mcall['l']), 'Lock on _mutex in the enclosing scope', 'WebSocketServer modifies _clients (`%s`) without holding its mutex' % pe(mcall))
     ctx.floor('R-LOCK _clients', n, 2)
+
+
+# ------------------------------------------------------------------ C11.zeroread
+
+def check_zero_read(ctx, prog):
+    """C11.zeroread: a frame with an empty payload (empty ping / pong / fragment) must not poison the connection.  Whether a
+    blocking Socket_::read of 0 bytes is harmless is read from its body (interpreted with the system read() returning the
+    number of bytes asked for): if it ends with the socket's error state set, every read of a computed length in the WebSocket
+    code must be guarded so that the length is at least 1 - decided by evaluating the guards of each call for lengths 0..2."""
+    import scansim, bounded
+    rd = [g for g in prog.fn('asl::Socket_::read', '(void *,int)') if g.get('body')]
+    if not rd:
+        raise AnalysisBroken('anchor asl::Socket_::read(void *,int) not found')
+    rd = rd[0]
+    ctx.analysed(rd)
+    sysread = lambda run, e, args: args[2] if len(args) > 2 and isinstance(args[2], int) else 0
+    poisoned = None
+    try:
+        r = scansim.Run(prog, rd, {'B': [0] * 8}, ptr_params={rd['params'][0]['id']: ('P', 'B', 0)}, int_params={rd['params'][1]['id']: 0},
+                        mems={'_blocking': 1, '_handle': 3, '_error': 0}, externs={'read': sysread, 'recv': sysread})
+        r.run()
+        poisoned = bool(r.mems.get('_error'))
+    except (scansim.Unsupported, scansim.OOB, TypeError) as u:
+        ctx.undecided('C11.zeroread', rd['pq'], 'Socket_::read:effect of a zero-length read', fwhere(rd), 'outside the interpreted fragment: %s' % u)
+        return
+    ctx.info['zero_length_blocking_read_sets_error'] = poisoned
+    if not poisoned:
+        ctx.ok('C11.zeroread', rd['pq'], 'Socket_::read:effect of a zero-length read', fwhere(rd), 'a blocking read of 0 bytes leaves the error state clear: callers need no guard')
+        return
+    n = 0
+    for f in prog.functions:
+        if not f.get('body') or f.get('clsp') not in ('asl::WebSocket',):
+            continue
+        G = None
+        for e in fn_exprs(f):
+            if not (e.get('k') == 'call' and (e.get('pq') or '') in ('asl::Socket::read', 'asl::Socket_::read') and len(e.get('a', [])) == 2):
+                continue
+            narg = e['a'][1]
+            if const_val(narg) is not None:
+                continue
+            n += 1
+            G = G or q.Guarded(f)
+            role = '%s:payload read of a computed length is at least 1 byte' % f['n']
+            try:
+                by_id, by_text = bounded.atoms_of(prog, f, narg, allow_assigned=tuple(bounded.assigned_vars(f)))
+            except bytesets.Undecidable as u:
+                ctx.undecided('C11.zeroread', f['pq'], role, fwhere(f, e['l']), str(u))
+                continue
+            wr = bounded.writes_between(G, f, set(by_id), G.of(e), e)
+            if wr is not None:
+                ctx.undecided('C11.zeroread', f['pq'], role, fwhere(f, e['l']), 'length written (line %s) between its guard and the read' % wr.get('l'))
+                continue
+            st, info = bounded.decide(prog, f, G.of(e), lambda ev: ev.ev(narg) >= 1, by_id, by_text, range(0, 3), G=G)
+            ctx.evaluations += 9
+            if st == 'fails':
+                ctx.violation('C11.zeroread', f['pq'], role, fwhere(f, e['l']), '`%s` can be asked for %s byte(s): Socket_::read treats the 0 returned by the system call as a failed receive and marks the socket bad, so an empty frame (empty ping, pong or fragment) makes the connection look closed and every later message is lost' % (
+                    pe(e)[:70], ', '.join('%s = %s' % kv for kv in sorted(info.items()))))
+            elif st == 'undecided':
+                ctx.undecided('C11.zeroread', f['pq'], role, fwhere(f, e['l']), str(info))
+            else:
+                ctx.ok('C11.zeroread', f['pq'], role, fwhere(f, e['l']), 'guards exclude a length of 0')
+    ctx.floor('C11.zeroread', n, 1)
